@@ -217,6 +217,15 @@ impl Val {
 /// region entry (type BIN, count 16) is put first in the index and its 16-byte trailer at the
 /// end of the store, as rpmbuild does. Entries are laid out in the order given.
 pub fn layout(entries: &[(u32, Val)], region: Option<u32>) -> RawHeader {
+    layout_with_dribbles(entries, region, 0)
+}
+
+/// Like `layout`, but the last `outside` entries are left outside the region ("dribbles", as rpm
+/// writes them when tags are added to a header after it was sealed): their index records follow
+/// the records the region covers and their data follows the region trailer in the store.
+pub fn layout_with_dribbles(entries: &[(u32, Val)], region: Option<u32>, outside: usize) -> RawHeader {
+    let outside = if region.is_some() { outside.min(entries.len()) } else { 0 };
+    let (entries, dribbles) = entries.split_at(entries.len() - outside);
     let mut store: Vec<u8> = Vec::new();
     let mut idx: Vec<RawEntry> = Vec::new();
     for (tag, v) in entries {
@@ -246,6 +255,19 @@ pub fn layout(entries: &[(u32, Val)], region: Option<u32>) -> RawHeader {
         store.extend_from_slice(&(-(il * 16)).to_be_bytes());
         store.extend_from_slice(&16u32.to_be_bytes());
         idx.insert(0, region_entry);
+    }
+    for (tag, v) in dribbles {
+        let a = v.align();
+        while store.len() % a != 0 {
+            store.push(0);
+        }
+        idx.push(RawEntry {
+            tag: *tag,
+            typ: v.typ(),
+            offset: store.len() as i32,
+            count: v.count(),
+        });
+        store.extend_from_slice(&v.data());
     }
     RawHeader::new(idx, store)
 }
